@@ -87,7 +87,7 @@ claim("C15", "proof",
 claim("C06", "proof",
       "Theorem readAndCutBytes_eq_spec: for EVERY byte string and every bounds list with non-zero indexes the model of read_and_cut_bytes equals the "
       "specification (fillers verbatim, each bound = data[lo-1..hi] or its fallback rule, nothing appended, empty input ⇒ empty output), and never "
-      "panics. Direct oracle: implementation vs executed specification, exhaustive small alphabets incl. NUL/LF/0xFF + large random inputs.",
+      "panics. Reader level (Props/ReadLoops.lean, 38 theorems): read_bytes_to_end / cut_bytes / read_and_cut_bytes — and bstr's for_byte_record_with_terminator, std's read_until and read_and_cut_str — transcribed statement by statement over a reader that hands the input out in ARBITRARY non-empty pieces: readAndCutBytesLoop_eq / readAndCutStrLoop_eq prove the run equal to the model on the concatenation for every segmentation (no checked slice panics, fuel 2·bytes+2 never used up). Direct oracle: implementation vs executed specification, exhaustive small alphabets incl. NUL/LF/0xFF + large random inputs.",
       TIE, "Lean 4 refinement theorem (engine = abstract spec) + differential correspondence", "§4 C06")
 claim("C07", "proof",
       "Theorems (57): chars_run_eq_spec(_of_parsed): for every VALID UTF-8 input, every bounds argument the parser accepts, -z, -m, format text, fallbacks, the model of "
@@ -111,7 +111,7 @@ claim("C19", "proof",
       "-M on every list of 1-3 bounds over sides {open,1,2,3,-1}, accepted iff strictly ascending. argv → option set is modelled too (Model/Argv.lean: pico_args 0.5 with "
       "short-space-opt/combined-flags/eq-separator + parse_args step by step, 405 lines) with theorems in Props/C19Argv (177): parseArgv never panics; on well-formed "
       "command lines it equals a table lookup and is invariant under every permutation of the option groups (parseArgv_perm); on canonical command lines it rejects "
-      "iff decision (flagsOf …) = reject (parseArgv_canonArgv_decision). K-argv: random argument vectors in every spelling pico_args accepts vs the real binary.",
+      "iff decision (flagsOf …) = reject (parseArgv_canonArgv_decision). Props/OptLit.lean (70 theorems): StreamOpt::try_from, ForwardBounds::try_from / get_last_bound, FastOpt::try_from, print_bof / print_field, Trim::from_str and main's dispatch transcribed statement by statement and proved equal to the model (tucMainLit_eq: for every argv, input and segmentation; the only forced hypothesis — a non-empty bounds list made of fillers only, on which ForwardBounds::try_from panics in expect() instead of returning its Err — is proved unreachable from any command line). K-argv: random argument vectors in every spelling pico_args accepts vs the real binary.",
       TIE + " Don't-cares: -l with -e; default bounds with -m (data-dependent failure, C15). Non-canonical spellings (glued values, clusters, repeated options) are "
       "covered by the K-argv differential only.",
       "Lean 4 decision-table theorem + argv-parser model with permutation-invariance theorem + exhaustive CLI correspondence", "§4 C19")
@@ -147,7 +147,7 @@ claim("C14", "proof",
 claim("C18", "proof",
       "Theorem parse_eq_spec: for EVERY string, UserBoundsList::from_str's model accepts exactly what an independent grammar (maximal-munch lexer + token "
       "parser + declarative bound syntax) accepts and yields the same list; plus: never panics, accepted bounds are non-zero i32 with same-sign ranges "
-      "non-decreasing, the four chained replace calls equal token-wise unescaping, no two adjacent fillers (73 theorems). Machine integers (Props/BoundsLit.lean, 109 theorems): side.rs and userbounds.rs transcribed statement by statement with i32 values, checked + - * and the as-casts of the Rust text, and proved equal to the unbounded model — the i32 parser of core (both digit loops), Side::from_str, UserBounds::from_str, matches, the orderings with no hypothesis; try_into_range / unpack / complement under parts_length < 2^31 and a non-zero left side, both shown necessary by witnesses. Direct oracle: implementation vs "
+      "non-decreasing, the four chained replace calls equal token-wise unescaping, no two adjacent fillers (73 theorems). userboundslist.rs likewise (Props/BoundsListLit.lean, 81 theorems: parse_bounds_list with byte offsets and checked str slices = the model scanner for EVERY string — no slice is ever out of range or off a char boundary —, from_str, From<Vec>, is_sortable, is_sorted, has_negative_indices, is_forward_only, unpack, complement). Machine integers (Props/BoundsLit.lean, 109 theorems): side.rs and userbounds.rs transcribed statement by statement with i32 values, checked + - * and the as-casts of the Rust text, and proved equal to the unbounded model — the i32 parser of core (both digit loops), Side::from_str, UserBounds::from_str, matches, the orderings with no hypothesis; try_into_range / unpack / complement under parts_length < 2^31 and a non-zero left side, both shown necessary by witnesses. Direct oracle: implementation vs "
       "the executed grammar on every string ≤ L symbols + random; rendering on probe records vs the executed specification.",
       TIE, "Lean 4 language-recognition theorem (scanner with look-ahead = lexer+parser, simulation proof) + bounded-exhaustive correspondence", "§4 C18")
 
